@@ -1027,8 +1027,53 @@ class FnPass:
         d = self.fn.defs().get(place, [])
         if len(d) == 1:
             return True
-        # mutable local: stable if no (re)definition can execute after the copy `sd`
+        # mutable local.  When the refinement is applied at a known branch block: stable if no (re)definition lies on a path from
+        # the copy to that branch that does not execute the copy again (a loop that redefines the local and comes back to the
+        # copy re-reads it, so the refinement is still about the current value)
         cb, ci = sd[0], sd[1]
+        ub = getattr(self, "_use_block", None)
+        if ub is not None and ci != "t":
+            def defs_in(bb, lo, hi):
+                """a definition of `place` in block bb at an index in (lo, hi) ('t' = terminator = beyond all statements)"""
+                for (db, di, _k) in d:
+                    if db != bb:
+                        continue
+                    pos = 10 ** 9 if di == "t" else di
+                    if lo < pos < hi:
+                        return True
+                return False
+            if ub == cb:
+                return not defs_in(cb, ci, 10 ** 9)
+            if defs_in(cb, ci, 10 ** 9 + 1):
+                return False
+            # blocks on paths cb -> ub that do not re-enter cb
+            fwd = set()
+            stack = [x for x in self.fn.succs(cb) if x != cb]
+            while stack:
+                x = stack.pop()
+                if x in fwd:
+                    continue
+                fwd.add(x)
+                if x == ub:
+                    continue
+                stack.extend(y for y in self.fn.succs(x) if y != cb)
+            if ub not in fwd:
+                return False
+            back = set()
+            stack = [ub]
+            while stack:
+                x = stack.pop()
+                if x in back:
+                    continue
+                back.add(x)
+                stack.extend(y for y in self.fn.preds(x) if y != cb and y in fwd)
+            for x in fwd & back:
+                if x == ub:
+                    if defs_in(x, -1, 10 ** 9):
+                        return False
+                elif defs_in(x, -1, 10 ** 9 + 1):
+                    return False
+            return True
         reach = self._reach_from(cb)
         for (db, di, _k) in d:
             if db == -1:
@@ -1712,6 +1757,13 @@ class FnPass:
         return ir.pl_ty(self.fn, op[1])
 
     def on_switch(self, b, st, t):
+        self._use_block = b.idx if hasattr(b, "idx") else b      # where branch refinements are applied (see _stable_between)
+        try:
+            return self._on_switch(b, st, t)
+        finally:
+            self._use_block = None
+
+    def _on_switch(self, b, st, t):
         fn = self.fn
         disc, arms, otherwise, dty = t[1], t[2], t[3], t[4]
         outs = []
